@@ -73,6 +73,15 @@ fn worker(ctx: &Ctx, out: &mut Out) {
         if idx % 16 == 0 {
             ctx.breadcrumb(case, "cycle");
         }
+        if idx > 0 && idx % 400 == 0 {
+            // every open leaves at least one (empty) file behind; start over with a fresh
+            // directory now and then so that the scan at open stays short
+            kept_handles.clear();
+            wait_background_threads(0, 5000);
+            let _ = std::fs::remove_dir_all(&dir);
+            std::fs::create_dir_all(&dir).expect("fresh store directory");
+            model.clear();
+        }
         let mut r = Rng::derive(ctx.seed, 0xC17_0000_0000 ^ case);
         // 0 merge timer far away, 1 merges running, 2 short interval sync, 3 interval sync far away,
         // 4 both timers far away
@@ -93,7 +102,9 @@ fn worker(ctx: &Ctx, out: &mut Out) {
                 conf.trig_dead = 0;
                 conf.thr_frag = 1.0;
                 conf.thr_dead = u64::MAX;
-                conf.thr_small = u64::MAX;
+                // two out of three: every file is merged, the trigger clears; one out of three:
+                // the thresholds select nothing, so every tick finds the trigger still exceeded
+                conf.thr_small = if r.chance(2, 3) { u64::MAX } else { 0 };
             }
             2 => {
                 conf.policy = Policy::Never;
